@@ -754,12 +754,11 @@ def pncbo(op, ifile1, ifile2, coordkeys=None, verbose=0):
             unit2 = getattr(in2var, 'units', 'unknown')
             propd['units'] = '(%s) %s (%s)' % (unit1, op, unit2)
             outval = eval('in1var[...] %s in2var[...]' % op)
-            if isinstance(outval, np.ma.MaskedArray):
-                # keep the mask of masked operands
-                outval = outval.view(np.ma.MaskedArray)
-            else:
-                outval = outval.view(np.ndarray)
-            outval = np.ma.masked_invalid(outval)
+            # keep the mask of masked operands
+            outmask = np.ma.getmaskarray(outval)
+            outval = np.ma.masked_invalid(
+                np.ma.getdata(outval).view(np.ndarray))
+            outval = np.ma.masked_where(outmask, outval)
             outvar = tmpfile.createVariable(
                 k, in1var.dtype.char, in1var.dimensions, fill_value=-999,
                 values=outval)
